@@ -176,6 +176,15 @@ FAMILIES = [
     Family('InfState15', attrs={'execution_recursion_detector': Obj('Detector'),
                                 'recursion_detector': Obj('RecDet')}),
     Family('RecDet', fields={'pushed_nodes': Seq(_PN)}),
+    Family('VSet15', attrs={'nonempty': BOOL}, truthy='o.nonempty'),
+    Family('FExec', methods={
+        'is_generator': FnSpec('FunctionExecution.is_generator', ret=BOOL, pure=True),
+        'infer_annotations': FnSpec('FunctionExecution.infer_annotations', ret=Obj('VSet15'), pure=True, assumed=True,
+                                    effects=['eval-annotation'], note='evaluates the return annotation (unguarded)'),
+        'get_return_values': FnSpec('FunctionExecution.get_return_values', ret=ANY, pure=True, assumed=False,
+                                    effects=['guarded-return-values'],
+                                    note='decorated with the execution budget and memoised with a recursion default '
+                                         '(guard inventory)')}),
     Family('LCtx', attrs={'tree_node': _PN, 'inference_state': Obj('LState'), 'parent_context': Opt(Obj('LCtx'))},
            methods={'get_value': FnSpec('Context.get_value', ret=ANY, pure=True)}),
     Family('LState', fields={'inferred_element_counts': DictT(_PN, INT)}, attrs={'builtins_module': ANY}),
@@ -501,7 +510,54 @@ _gen_cache = Contract(
     notes='block contract on one round of the loop; the generator and interleaved consumers are abstract',
 )
 
-CONTRACTS = [_push, _pop, _wrapper, _exec_allowed, _goto_import, _memo, _limit, _gen_cache]
+# ------------------------------------------------------------------ function execution: everything behind the guards
+def _region_infer_sync(func):
+    """BaseFunctionExecutionContext.infer: the branch for ordinary (non-coroutine) functions"""
+    for s_ in func.body:
+        if isinstance(s_, ast.If) and ast.unparse(s_.test) == 'is_coroutine':
+            return s_.orelse
+    return None
+
+
+def _replay_infer_sync(inp):
+    """functions, methods and properties whose return annotation is a forward-reference string that calls back into them"""
+    from pyvc.replay import run_real
+    import jedi
+    code = inp['code']
+    lines = code.split('\n')
+
+    def run():
+        s = jedi.Script(code)
+        n = 0
+        for ln, text in enumerate(lines, 1):
+            for col in range(0, len(text) + 1, 2):
+                s.infer(ln, col)
+                s.goto(ln, col)
+                n += 1
+        return n
+    out = run_real(run)
+    return {}, out
+
+
+_infer_sync = Contract(
+    id='C15.BaseFunctionExecutionContext.infer.sync', prop='C15',
+    clause='executing an ordinary function evaluates its body AND its return annotation only behind the give-up guards '
+           '(get_return_values: memo with a recursion default + execution budget) - the annotation is not evaluated on the '
+           'way (only a generator function asks whether it has one), so annotations that reach the function again are cut',
+    file='jedi/inference/value/function.py', qualname='BaseFunctionExecutionContext.infer', region=_region_infer_sync,
+    params={'self': Obj('FExec')}, free={'inference_state': ANY, 'is_coroutine': BOOL, 'GenericClass': ANY},
+    families=['FExec', 'VSet15'], ret=ANY,
+    effects_allowed=['guarded-return-values'], effect_guard={'eval-annotation': 'self.is_generator()'},
+    ensures=['implies(not self.is_generator(), result == self.get_return_values())'],
+    witness={}, replay=_replay_infer_sync, concrete_only=True,
+    witness_library=[{'code': "def f() -> 'f()':\n    pass\nf()\n"},
+                     {'code': "def f() -> 'g()':\n    pass\ndef g() -> 'f()':\n    pass\nx = f()\nx\n"},
+                     {'code': "class A:\n    @property\n    def p(self) -> 'A().p':\n        pass\nA().p\n"}],
+    concrete_ensures=['result > 0'],
+)
+_infer_sync.exception_free = True
+
+CONTRACTS = [_push, _pop, _wrapper, _exec_allowed, _goto_import, _memo, _limit, _gen_cache, _infer_sync]
 
 
 # ---------------------------------------------------------------- structural: guards in place
@@ -770,6 +826,11 @@ def register(reg):
     import pyvc.types as T
     reg.names['_NO_DEFAULT'] = SV(ANY, z3.Const('_NO_DEFAULT', T.AnySort))
     reg.names['NO_VALUES'] = SV(ANY, z3.Const('NO_VALUES', T.AnySort))
+    from pyvc.values import MNS as _NS2, MFn as _MF2
+    reg.names['iterable'] = _NS2('iterable', {'Generator': _MF2('spec', 'iterable.Generator', spec=FnSpec(
+        'iterable.Generator', params=[('inference_state', ANY), ('func_execution_context', Obj('FExec'))], ret=ANY,
+        pure=True, assumed=True))})
+    reg.names['ValueSet'] = FnSpec('ValueSet', params=[('values', Seq(ANY))], ret=ANY, pure=True, assumed=True)
     reg.names['_RECURSION_SENTINEL'] = SV(ANY, z3.Const('_RECURSION_SENTINEL', T.AnySort))
     NW = Obj('NameW')
     reg.names['unite'] = FnSpec('unite', params=[('iterable', Seq(Seq(NW)))], ret=Seq(NW), pure=True, assumed=True,
